@@ -47,6 +47,13 @@ GRID_SIZE = len(GRID)  # 2496
 
 
 def gen(seed, idx, tier):
+    scn = _gen(seed, idx, tier)
+    # a third of the histories: the loaded solution is also looked at through other saved steps
+    scn["views"] = substream(seed, idx, "c05-views").random() < 0.35
+    return scn
+
+
+def _gen(seed, idx, tier):
     rnd = substream(seed, idx, "c05")
     cell = GRID[idx] if idx < GRID_SIZE else None
     engine_a = cell is None and rnd.random() < 0.15
@@ -223,6 +230,9 @@ def oracle(scn, sim, h):
             V += [v for v in Vfile if v["rule"] not in have]
     if h.solution is not None:
         V += recorder.check_solution(h, h.solution, frames, final, t_model)
+        if scn.get("views") and not V and getattr(h.solution, "path", None) and os.path.exists(h.solution.path):
+            # the same questions asked while the solution looks at another saved step
+            V += recorder.check_solution_views(h, h.solution, frames, final, t_model, path=getattr(h.solution, "path", None))
     elif not h.outcome.startswith("raised"):
         V.append(Violation("no-solution", "solve() returned None for an uncancelled run"))
     return V, "ok", final
